@@ -19,7 +19,8 @@ func init() {
 		Gen:   genC12,
 		Rule: "one Handler (New / NewByCh with capacity 0,1,3,8) or an Actor spawn tree (depth <= 3, New / NewByOptions) and 1..8 (thorough 1..16) sender threads each posting a numbered sequence to one or several mailboxes; " +
 			"posted functions / effects log begin, yield, end; Close at the end followed by late Post/Send; oracles: exactly-once by the fair settle horizon, no overlap per mailbox, per-sender order, " +
-			"effect receives its own actor, parent/child registry, no cross-delivery, nothing submitted after Close runs; non-trivial = >=2 senders interleaved on one mailbox; distinct = distinct context-switch signature",
+			"effect receives its own actor, parent/child registry, no cross-delivery, nothing submitted after Close runs; non-trivial = >=2 senders interleaved on one mailbox; distinct = distinct context-switch signature" +
+			" Flavours: messages submitted through unawaited AskChannel or AskOnceWithTimeout(<=0), Close while senders are active, the default Handler (package init re-run inside the simulation), the closed default Actor and orphans spawned from closed parents.",
 		Real:        []string{"fpgo.HandlerDef (run goroutine)", "fpgo.ActorDef (run goroutine, Spawn, registry)"},
 		Stub:        []string{"goroutine scheduler", "clock (advanced by >=1ns before each Spawn: actor ids are time.Now())", "posted functions / effects"},
 		Assumptions: []string{"actor ids are time.Now(); the harness advances the fake clock by 1ns before each actor creation (a real monotonic clock never returns the same reading twice to one goroutine)"},
